@@ -149,6 +149,9 @@ __CPROVER_ensures(IS_RC(v) ==> HDR(v)->ref_count == __verif_rc0 + 1u);
 #define HEAP_KID_UNTOUCHED(kid) (__CPROVER_rw_ok((kid).as.obj, sizeof(VmHeapHeader)) && HDR(kid)->obj_type == (kid).tag && \
                                  HDR(kid)->ref_count == __verif_krc0)
 
+/* the heap descriptor as ONE assigns target: the VmHeap bytes (stats, intern_table, intern_count, intern_capacity) - not
+ * the whole object, because in a VmState the descriptor is embedded (vm->heap) and the rest of the VmState is not touched */
+#define HEAP_DESC(h) __CPROVER_object_upto((char *)(h), sizeof(VmHeap))
 /* the heap descriptor: intern table valid for intern_capacity entries (vm_release of a string walks it) */
 #define HEAP_INTERN_MAX 1024u
 #define HEAP_OK(h) ((h)->intern_capacity >= 1 && (h)->intern_capacity <= HEAP_INTERN_MAX && (h)->intern_count <= (h)->intern_capacity)
@@ -195,7 +198,7 @@ __CPROVER_requires(!(IS_RC(v) && O_KID_RC(REL_P(v))) || (VERIF_FRESH(O_KID(REL_P
 __CPROVER_requires(IS_RC(v) ==> __verif_hkidrc == (O_KID_RC(REL_P(v)) ? 1 : 0))
 #endif
 __CPROVER_assigns(__verif_h;
-                  IS_RC(v): HDR(v)->ref_count, __CPROVER_object_whole(heap), __CPROVER_object_whole(heap->intern_table)
+                  IS_RC(v): HDR(v)->ref_count, HEAP_DESC(heap), __CPROVER_object_whole(heap->intern_table)
 #if REL_CONTAINER
                   ; IS_RC(v) && O_KID_RC(REL_P(v)): HDR(O_KID(REL_P(v)))->ref_count
 #endif
@@ -238,7 +241,7 @@ REL_PRE_HEAP
 __CPROVER_requires(__verif_h.lvl == 0 || __verif_h.lvl == 1)
 REL_PRE_HDR(REL_ON, sizeof(VmHeapHeader), __verif_krc0)
 __CPROVER_assigns(__verif_h;
-                  REL_ON && IS_RC(v): HDR(v)->ref_count, __CPROVER_object_whole(heap), __CPROVER_object_whole(heap->intern_table))
+                  REL_ON && IS_RC(v): HDR(v)->ref_count, HEAP_DESC(heap), __CPROVER_object_whole(heap->intern_table))
 __CPROVER_ensures(__verif_h.lvl == __CPROVER_old(__verif_h.lvl))
 REL_POST_HDR(REL_ON, __verif_krc0)
 /* ghost bookkeeping: a release delivered to the child of interest is counted */
@@ -261,7 +264,7 @@ __CPROVER_requires(O_HAS_KID(REL_PN) ==> O_KID(REL_PN).tag != TAG_HASHMAP)
 __CPROVER_requires(!O_KID_RC(REL_PN) || (VERIF_FRESH(O_KID(REL_PN).as.obj, sizeof(VmHeapHeader)) && HDR(O_KID(REL_PN))->obj_type == O_KID(REL_PN).tag &&
                                     HDR(O_KID(REL_PN))->ref_count == __verif_krc0))
 __CPROVER_requires(__verif_hkidrc == (O_KID_RC(REL_PN) ? 1 : 0))
-__CPROVER_assigns(__verif_h, __CPROVER_object_whole(heap), __CPROVER_object_whole(heap->intern_table); O_KID_RC(REL_PN): HDR(O_KID(REL_PN))->ref_count)
+__CPROVER_assigns(__verif_h, HEAP_DESC(heap), __CPROVER_object_whole(heap->intern_table); O_KID_RC(REL_PN): HDR(O_KID(REL_PN))->ref_count)
 __CPROVER_frees(REL_PN
 #if REL_HAS_STORE
                 , O_STORE(REL_PN)
